@@ -59,6 +59,17 @@ CHECKS = {
         "NaN excluded.",
    technique="exhaustive enumeration of inputs and read splittings executed on the implementation",
    ref="3/C19"),
+ "C12": dict(cat="exploration",
+   text="Exhaustive enumeration: every section of the loaded config spec x every key x a 46-value YAML-representable "
+        "alphabet through the real validate_config_item with per-validator type/range predicates; section-level "
+        "validation of constructible base configs (complete, typed defaults, unknown key rejected, missing required "
+        "key rejected, provided key kept, spec deep-equal before/after); every unit suffix x numeric form through "
+        "string_to_ms/string_to_secs against exact rational arithmetic.",
+   note="Trusted: type predicates in props/c12.py (written per validator type from the spec documentation). One key "
+        "perturbed at a time; any exception counts as rejection; sections needing devices the c12 machine lacks "
+        "get item-level checks only.",
+   technique="exhaustive enumeration of (section, key, value) inputs executed on the implementation",
+   ref="3/C12"),
 }
 NOT_YET = "check not built yet in this revision (planned, see DESIGN.md section 7)"
 
